@@ -244,7 +244,8 @@ func transparency(c *vf.Ctx, k *kind) {
 			cat, _, _ := strings.Cut(mis, " | ")
 			return k.name + ": transparency: " + cat
 		},
-		Run: func(hist []op) (string, bool, string) {
+		Run: func(hist []op) (key string, stop bool, mis string) {
+			defer recoverRun(&stop, &mis)
 			cur := &obj{h: k.fresh()}
 			var parked []*obj
 			pos := 0 // stream position: every written byte is fresh data
@@ -354,7 +355,7 @@ func highCounters(c *vf.Ctx, k *kind) {
 			}
 		}
 	}
-	c.ParallelFor(len(cs), func(i int) {
+	pfor(c, k.name+" section H", len(cs), func(i int) {
 		x := cs[i]
 		st := make([]byte, 0, k.mlen)
 		if k.name == "blake2b" {
@@ -598,7 +599,7 @@ func faults(c *vf.Ctx, k *kind) {
 			}
 		}
 	}
-	c.ParallelFor(len(fs), func(i int) {
+	pfor(c, k.name+" section F", len(fs), func(i int) {
 		f := fs[i]
 		c.Eval(1)
 		accepted, op, val := k.drive(f.b)
@@ -663,5 +664,25 @@ func keyedMarshal(c *vf.Ctx) {
 		if p, v, _ := vf.Protect(func() { m.MarshalBinary() }); p {
 			c.Violation(name+": MarshalBinary of a keyed hash panics", fmt.Sprint(v))
 		}
+	}
+}
+
+// pfor is c.ParallelFor with every case guarded: a panic escaping the code under test
+// is recorded as a violation instead of crashing the run.
+func pfor(c *vf.Ctx, section string, n int, f func(i int)) {
+	c.ParallelFor(n, func(i int) {
+		if p, v, st := vf.Protect(func() { f(i) }); p {
+			if len(st) > 1500 {
+				st = st[:1500]
+			}
+			c.Violation(section+": unexpected panic in the code under test", map[string]any{"case_index": i, "panic": fmt.Sprint(v), "stack": st})
+		}
+	})
+}
+
+// recoverRun turns a panic inside a history into a mismatch of that history.
+func recoverRun(stop *bool, mis *string) {
+	if r := recover(); r != nil {
+		*stop, *mis = true, fmt.Sprintf("unexpected panic | %v", r)
 	}
 }
